@@ -12,7 +12,9 @@ HARNESSES = [dict(name="ha", pkg="./pkg/ha/", test="TestVerifC10", timeout=900,
 def _split(case):
     """(head tokens incl. the optional G2 token, op tokens)"""
     t = case.split(" ")
-    k = 11 if len(t) > 10 and t[10].startswith("G2:") else 10
+    k = 10
+    while len(t) > k and t[k][:3] in ("G2:", "IX:"):
+        k += 1
     return t[:k], t[k:]
 
 
@@ -78,7 +80,7 @@ def two_group_cases(rng, quick):
     for w in W:
         ops += ["st" + w, "sd" + w, "dl%s:0" % w, "d1%s:0" % w, "d2%s:0" % w, "d1%s:1" % w, "d2%s:1" % w, "dr%s:0" % w,
                 "pl" + w, "pt" + w, "sw%s:0" % w, "sw%s:1" % w, "SW%s:0" % w, "SW%s:1" % w, "S1%s:0" % w, "S2%s:1" % w,
-                "S2%s:0" % w, "rs" + w, "SU%s:0" % w, "SU%s:2" % w, "SU%s:3" % w, "SU%s:4" % w, "tk%s:2" % w, "tk%s:13" % w, "tk%s:5" % w, "dn%s:0" % w, "up%s:0" % w, "dn%s:100" % w, "up%s:100" % w, "de%s:100" % w,
+                "S2%s:0" % w, "rs" + w, "dg%s:0" % w, "SU%s:0" % w, "SU%s:2" % w, "SU%s:3" % w, "SU%s:4" % w, "tk%s:2" % w, "tk%s:13" % w, "tk%s:5" % w, "dn%s:0" % w, "up%s:0" % w, "dn%s:100" % w, "up%s:100" % w, "de%s:100" % w,
                 "dn%s:1" % w, "dn%s:101" % w]
     settle = ["sd0", "dl1:9", "dl0:9", "sd1", "dl0:9", "dl1:9"]
     # every single op and (thorough: every pair) after the warm states, then settle
@@ -94,7 +96,9 @@ def two_group_cases(rng, quick):
     # random walks with partial heartbeats
     n = 250 if quick else 4000
     for _ in range(n):
-        c, g = rng.choice(confs), rng.choice(g2s)
+        c, g = rng.choice(confs), rng.choice(g2s) + (",%d" % rng.randrange(5) if rng.random() < 0.6 else "")
+        if rng.random() < 0.5:
+            c = c + " IX:%d" % rng.randrange(7)
         walk = ["st0", "st1"]
         for _ in range(rng.randint(20, 120)):
             r = rng.random()
@@ -157,6 +161,7 @@ def all_ops(nifs):
         for k in range(nifs + 1):
             ops += ["dn%s:%d" % (w, k), "up%s:%d" % (w, k)]
         ops += ["de%s:0" % w, "xa%s:0" % w, "xu%s:0" % w]   # xa/xu: down/up with the m.mu lock probe
+        ops += ["dg%s:0" % w]                                # heartbeat with statuses of unknown groups
         ops += ["xg%s:0" % w, "xh%s:0" % w]                  # xg/xh: down/up with the gap reader (one critical section?)
         ops += ["SU%s:0" % w, "SU%s:3" % w]                      # switchover naming an unknown group first / last
         ops += ["tk%s:%d" % (w, b) for b in (0, 2, 5, 9, 13)]   # checkPeerTimeout: not connected (+ timeout), old hb, skew, both
@@ -222,7 +227,8 @@ def gen_cases(rng, tier, budget):
         na, nb = rng.randint(0, 3), rng.randint(0, 3)
         ida, idb = rng.choice([(1, 2), (2, 1), (10, 9), (99999, 1), ("9", "10"), ("node-10", "node-2"), ("B", "a")])
         c = cfg(ida, pa, rng.randint(0, 1), dec, na, idb, pb, rng.randint(0, 1), rng.choice([dec, 0, 50]), nb)
-        cases.append(c + " " + " ".join(random_walk(rng, max(na, nb), rng.randint(40, 200))))
+        ix = ["IX:%d" % rng.randrange(7)] if rng.random() < 0.5 else []
+        cases.append(" ".join([c] + ix + random_walk(rng, max(na, nb), rng.randint(40, 200))))
     # (4) node ids as arbitrary strings (Go compares them bytewise), equal priorities so that the id decides
     for ida, idb in STR_IDS:
         for ra, rb in ((0, 0), (1, 0), (1, 1)):
@@ -231,6 +237,22 @@ def gen_cases(rng, tier, budget):
                 cases.append(c + " " + " ".join(warm(k) + ["sd0", "dl1:9", "dl0:9", "sd1", "dl0:9", "dl1:9", "pl0", "pl1",
                                                         "sd1", "dl0:9", "dl1:9", "sd0", "dl1:9", "dl0:9"]))
             cases.append(c + " " + " ".join(random_walk(rng, 1, 60)))
+    # (9) identifiers: sw_if_index values that cross byte boundaries / are huge / alias modulo 2^8 and 2^16 (IX:n),
+    #     group names that are prefixes of each other or differ in case (9th G2 field): every (down k, up k') pair on
+    #     three interfaces of group 1 and two of group 2, then peer loss (the down count decides the promotion)
+    c3 = cfg(1, 200, 0, 50, 3, 2, 100, 0, 50, 3)
+    for ix in range(7):
+        for k in range(4):
+            for k2 in range(4):
+                for w in W:
+                    cases.append(" ".join([c3, "IX:%d" % ix] + warm(1) + ["dn%s:%d" % (w, k), "up%s:%d" % (w, k2), "xg%s:%d" % (w, (k + 1) % 3),
+                                           "de%s:%d" % (w, k2), "pl" + w, "sd0", "dl1:9", "dl0:9"]))
+        for nm in range(5):
+            g = "G2:100,0,50,2,200,0,50,2,%d" % nm
+            for k in (0, 1, 100, 101, 2, 102):
+                for k2 in (0, 100, 101):
+                    cases.append(" ".join([c3, "IX:%d" % ix, g] + warm(1) + ["dn0:%d" % k, "dn1:%d" % k2, "up0:%d" % k2, "d10:9" if False else "sd1",
+                                           "d20:9", "pl0", "pl1", "S10:1", "sd0", "dg1:9", "dl0:9"]))
     # (8) gap reader: every down/up order on two tracked interfaces of one group, moving and non-moving notifications
     for c in (cfg(1, 200, 0, 50, 2, 2, 100, 0, 50, 2), cfg(1, 255, 1, 100, 3, 2, 10, 0, 1, 2)):
         seq = ["xg", "xh", "dn", "up"]
@@ -337,7 +359,7 @@ def signature(case, impl, models):
         return None
     i = d[0]
     ops = _split(case)[1]
-    if 0 < i <= len(ops) and ops[i - 1][:2] in ("dl", "d1", "d2", "pD", "rl"):
+    if 0 < i <= len(ops) and ops[i - 1][:2] in ("dl", "dg", "d1", "d2", "pD", "rl"):
         return "stale-heartbeat-built-before-peer-loss"
     return None
 
